@@ -19,25 +19,25 @@ CHECKS = {
                 text="Generated chronological text sources with duplicate-timestamp runs; windows placed before/between/exactly on/+-1us/after instants and A=B; binary-search (plain) and linear (streamed) strategies at 6 block sizes; fixed-struct records through C08's record model with a window on every case; evtx and journal windows against the independent dump / journalctl.",
                 note="bounds are passed in absolute form with explicit offset", ref="4/C03"),
     "C04": dict(cat="exploration", tech="instant oracle: timestamps rendered by an independent notation catalogue from integer instants, compared with s4's --prepend-utc output",
-                text="Per (notation, zone spelling, fraction length) one file; dates sweep 1970..2099 including month ends and leap days; offsets in 15-minute steps; named zones; -t values.",
+                text="Per (notation, zone spelling, fraction length) one file; dates sweep 1970..2099 including month ends and leap days; offsets in 15-minute steps; named zones; -t values. Every zone abbreviation (tz database, catalogue and the program's table; both letter cases) is swept: against python zoneinfo where the tz database uses it with one offset, and upper- against lower-case.",
                 note="catalogue templates are documented notations; python calendar arithmetic is trusted", ref="4/C04"),
     "C05": dict(cat="exploration", tech="differential plain vs container runs across codec parameter space (levels, block splits, header fields, tar formats) and block sizes",
-                text="stdout(container) must equal stdout(plain) for text, utmp, evtx, journal payloads; lz4 frames are written by hand to choose block splits.",
+                text="stdout(container) must equal stdout(plain) for text, utmp, evtx, journal payloads; lz4 frames are written by hand to choose block splits; gzip files of several members; tar archives with directory and link entries, long names, several members.",
                 note="python codecs and hand-written lz4 frame writer produce valid streams (validated by lz4_flex through s4 on aligned sizes)", ref="4/C05"),
     "C06": dict(cat="exploration", tech="offline trace checker (protocol state machine) over hook event logs + stdout equality across schedules + bounded-progress watchdog with deadlock probe + ThreadSanitizer build",
                 text="Every hooked run's trace is replayed against the channel/print protocol: FileInfo NewMessage* FileSummary per worker, print only when every live source has a pending datum, print = (dt, pathid) minimum, prints == messages received, loop ends normally; stdout identical across schedules. A ThreadSanitizer build (std rebuilt with the sanitizer) runs the same kind of cases incl. --summary and SIGINT: every report block is a violation.",
                 note="hooks log under one mutex so trace order is a total order consistent with real time at the log points; liveness restated as bounded progress", ref="4/C06"),
     "C07": dict(cat="fault_enumeration", tech="fault injection (truncation, corruption, random bytes, mismatching names) under AddressSanitizer and release builds; process-status + sanitizer-report oracle; valgrind/Miri in thorough",
-                text="Faulted inputs of every kind and container (truncation at every offset or offset class, 1/2/4/8-byte overwrites, random/zero/0xFF/printable byte strings, mismatching names), alone and beside 1..3 valid sources, run on the AddressSanitizer build: no signal/abort/panic, exit in {0,1}, no sanitizer report, no hang (watchdog + /proc probe), valid sources' messages all present in order; cases stopped by a known sanitizer report are re-run on the release build.",
+                text="Faulted inputs of every kind and container (truncation at every offset or offset class, 1/2/4/8-byte overwrites, random/zero/0xFF/printable byte strings, mismatching names, every integer field of every record layout at limit values, every numeric tar header field incl. base-256 forms, extreme mtimes, files unreadable under uid 65534, hostile text: month spellings, date/time fields beyond their limits, year-less logs with an undated head), alone and beside 1..3 valid sources, a third with --summary, run on the AddressSanitizer build: no signal/abort/panic, exit in {0,1}, no sanitizer report, no hang (watchdog + /proc probe), valid sources' messages all present in order; cases stopped by a known sanitizer report are re-run on the release build.",
                 note="ASan sees only what the workload reaches; intra-object overflows are invisible to it", ref="4/C07"),
     "C08": dict(cat="exploration", tech="reference stable sort of generated fixed-struct records (independent python layout tables) vs s4 output; ASan build for full-width fields",
-                text="All 16 record layouts, duplicate/reversed/equal times, null records, full-width fields, block sizes and containers.",
+                text="All 16 record layouts, duplicate/reversed/equal times, null records, sparse files (up to 70000 leading null slots), full-width fields, bytes above 0x7f in string fields, IPv6 patterns, block sizes and containers; files whose size fits two layouts are run 5 times (same output every run).",
                 note="python struct layouts restate the C ABI sizes/offsets independently", ref="4/C08"),
     "C09": dict(cat="exploration", tech="differential against journalctl --file (independent reader) for all renderings, windows on entry times, containers",
-                text="Entry sequence, export fields and cat text compared with journalctl for every available journal file.",
+                text="Entry sequence, export fields, cat text and the [pid] of the short renderings compared with journalctl for every available journal file; windows on entry times, +-1 us, between entries, before 1970.",
                 note="journalctl 252 decodes the shipped files correctly; no journal writer exists offline so inputs are the shipped files", ref="4/C09"),
     "C10": dict(cat="exploration", tech="differential against an independent evtx-crate dump (record id, FILETIME) incl. timestamp-patched variants; windows; containers",
-                text="EventRecordID sequence of stdout must equal the stable sort by creation time of the independent dump filtered by the window.",
+                text="EventRecordID sequence of stdout must equal the stable sort by creation time of the independent dump filtered by the window; header times patched to ties, reversed runs, sub-millisecond steps, shuffles and records displaced by nearly the whole file.",
                 note="evtx crate decodes records correctly; chunk CRCs are not validated by the crate", ref="4/C10"),
     "C11": dict(cat="exploration", tech="instant oracle for year-less renderings with chosen mtimes (filesystem, gzip header, tar member)",
                 text="Generated year-less logs spanning 0..4 year boundaries; --prepend-utc dates must equal the generator's; windows and merges use inferred dates.",
@@ -46,22 +46,22 @@ CHECKS = {
                 text="stdout(--blocksz b) must equal stdout(default) for text, fixed-struct, containers, journal/evtx.",
                 note="-", ref="4/C12"),
     "C13": dict(cat="exploration", tech="strict parser of the decorated stream built from the options + byte equality of the remainder with the undecorated run",
-                text="Full factorial of prepend/separator/colour options over the four message kinds; field order, padding, datetime field value are checked.",
+                text="Full factorial of prepend/separator/colour options over the four message kinds (every journal rendering; separators containing '%'; a silent widest-named file; fixed-struct records sharing a second); field order, padding, datetime field value are checked.",
                 note="generator-known instants for text; undecorated run as reference for other kinds", ref="4/C13"),
     "C14": dict(cat="exploration", tech="grammar-driven generation of filter arguments; resolved bound read from --summary and pinned with a probe log at sub-second resolution",
-                text="Every documented absolute and relative form under several -t; near-miss strings must be rejected before any output.",
+                text="Every documented absolute and relative form under several -t, incl. @-forms relative to a now-relative bound; near-miss strings must be rejected before any output.",
                 note="relative forms are evaluated against the run's own 'Datetime Now'", ref="4/C14"),
     "C15": dict(cat="exploration", tech="differential triple: directory vs explicit sorted list vs stdin list on random trees",
-                text="Random trees with symlinks, odd names and mixed suffixes; all splits between argv and stdin.",
+                text="Random trees with symlinks (also named unlike their targets), loops, directories whose names prefix a sibling's, odd names and mixed suffixes, tar members with non-log suffixes; all splits between argv and stdin; component-wise sorted order with cross-file ties.",
                 note="sorted path order = order of a sorted directory walk", ref="4/C15"),
     "C16": dict(cat="exploration", tech="independent name-grammar model vs path_to_filetype in-process over the exhaustive grammar product + arbitrary strings",
-                text="About 2x10^5 names; termination, no panic; invariance under rotation suffixes, junk and case.",
+                text="About 6.6x10^5 grammar names; termination and time (names with up to 60 unrecognised components), no panic; invariance under rotation suffixes, junk and case; tar members must be read like the plain file of the same name.",
                 note="-", ref="4/C16"),
     "C17": dict(cat="exploration", tech="summary high-water marks and peak RSS across file-size scaling (n..64n) for streamed text logs",
                 text="High-water marks must not grow with size (log growth allowed for windowed plain files).",
                 note="-", ref="4/C17"),
     "C18": dict(cat="fault_enumeration", tech="signal injection at sampled instants and hook-defined phases + TMPDIR leftovers oracle + planned-delay promptness test",
-                text="Compressed/archived journal+evtx sources extracted concurrently; normal runs under schedules and SIGINT at each phase; TMPDIR must be empty after exit. Promptness: a worker planned silent for 8 s (hooked), and hook-free runs (no trace, no delays) of a source that takes seconds to extract, alone and beside 3..30 finished sources, judged against the uninterrupted run's duration.",
+                text="Compressed/archived journal+evtx sources extracted concurrently; normal runs under schedules, with a stdout reader that goes away, and SIGINT at each phase, beside a source that fails part way, and with stdout unread; TMPDIR must be empty after exit. Promptness: a worker planned silent for 8 s (hooked), and hook-free runs (no trace, no delays) of a source that takes seconds to extract, alone and beside 3..30 finished sources, judged against the uninterrupted run's duration.",
                 note="kernel delivers SIGINT to the ctrlc thread as in production", ref="4/C18"),
     "C19": dict(cat="exploration", tech="summary parser vs stdout counts and generator ground truth across windows and decoration options",
                 text="stdout with and without --summary identical; printed bytes/lines/messages equal to stdout; per-file counts add up; first/last datetimes and bounds are the run's.",
